@@ -1,4 +1,4 @@
-HOOK_COMMITS = []
+HOOK_COMMITS = ['b8834da10588edba4f8fa5538bfe8ebf62e843b0']
 
 _PENDING = 'check not built yet in this session (design in DESIGN.md section 7); not claimed until its theorems and correspondence run'
 
